@@ -19,6 +19,25 @@ CHECKS = {
         design_ref="DESIGN.md section 8, C01",
         technique="Lean 4 proved translation validator (symbolic execution + normalisation) over real optimizer outputs; concrete Lean EVM as failing-input search",
     ),
+    "C03": dict(
+        category="proof",
+        text=("Each rule and folding identity is a Lean theorem over all 256-bit operands (Proofs/WordLemmas.lean, e.g. "
+              "mul_shl_one, div_shl_one, zero_exp, two_exp, iszero_sub), assembled into `norm_sound`: the rule table `Norm.mkBin/mkUn/...` "
+              "preserves evaluation in every state. Tie (one-directional correspondence): every rewrite the real `apply_transform` "
+              "performs on the shape-exhaustive operand table, every value `evaluate_expression*` returns on the boundary grid, the "
+              "opcode->operator->opcode round trip observed in specifications, and every block emitted with rules on/off/-size must be "
+              "justified by the proved table (`equiv norm3`), else the boundary grid is searched for a failing operand."),
+        design_ref="DESIGN.md section 8, C03",
+        technique="Lean 4 theorems on BitVec 256 for every rule/fold + shape-exhaustive correspondence of apply_transform/evaluate_expression with the proved table",
+    ),
+    "C05": dict(
+        category="translation_validation",
+        text=("The real `compare_asm_block_asm_format` is run on (block, semantic mutant) pairs and on (block, block); every pair it "
+              "accepts must be accepted by the proved Lean validator (`equiv_norm3_sound`) or survive execution in the Lean EVM on "
+              "boundary states; it must accept every analysable block against itself and never raise."),
+        design_ref="DESIGN.md section 8, C05",
+        technique="mutation pairs judged by the Lean-proved equivalence validator and the Lean EVM; reflexivity and exception behaviour of the real checker",
+    ),
 }
 
 NOT_APPLICABLE = [
